@@ -900,6 +900,19 @@ def m_option_transpose(I, fn, st, t, args, depth):
                     yield inner, None, cs + cs2
 
 
+def m_result_transpose(I, fn, st, t, args, depth):
+    # Result<Option<T>, E> -> Option<Result<T, E>>
+    for val, cs in _fork_enum(I, args[0], RES):
+        if val[2] == "Err":
+            yield ("e", OPT, "Some", (val,)), None, cs
+        else:
+            for inner, cs2 in _fork_enum(I, val[3][0], OPT):
+                if inner[2] == "None":
+                    yield ("e", OPT, "None", ()), None, cs + cs2
+                else:
+                    yield ("e", OPT, "Some", (("e", RES, "Ok", (inner[3][0],)),)), None, cs + cs2
+
+
 def m_option_filter(I, fn, st, t, args, depth):
     def some(x, cs):
         for ret, c2 in I.call_callable(fn, st, args[1], [x], depth):
@@ -1029,6 +1042,7 @@ MODELS = {
     "std::option::Option::<T>::as_ref": m_option_as_ref,
     "std::option::Option::<T>::as_mut": m_option_as_ref,
     "std::option::Option::<std::result::Result<T, E>>::transpose": m_option_transpose,
+    "std::result::Result::<std::option::Option<T>, E>::transpose": m_result_transpose,
     "std::result::Result::<T, E>::map": m_result_map,
     "std::result::Result::<T, E>::map_err": m_result_map_err,
     "std::result::Result::<T, E>::and_then": m_result_and_then,
